@@ -73,7 +73,34 @@ func assetTol(pre, post *Snap, denom string) *big.Rat {
 		amp = a2
 	}
 	t.Mul(t, amp)
-	return t.Add(t, big.NewRat(2, 1))
+	t.Add(t, big.NewRat(2, 1))
+	// rounding dust in the share total (listed finding F-C03: the validators' shares do not sum
+	// exactly to the asset's share total) is an absolute number of shares; once the asset has
+	// shrunk, each of them is worth TotalTokens / share total tokens. The observed mismatch, valued
+	// at that price, is added (zero in ordinary states).
+	worst := new(big.Rat)
+	for _, s := range []*Snap{pre, post} {
+		as, ok := s.Assets[denom]
+		if !ok || !as.TotalValidatorShares.IsPositive() || !as.TotalTokens.IsPositive() {
+			continue
+		}
+		sum := new(big.Rat)
+		for i := range s.Vals {
+			if sh, ok := s.Vals[i].ValShares[denom]; ok {
+				sum.Add(sum, decRat(sh))
+			}
+		}
+		mis := ratAbs(new(big.Rat).Sub(sum, decRat(as.TotalValidatorShares)))
+		if mis.Sign() == 0 {
+			continue
+		}
+		v := new(big.Rat).Mul(mis, new(big.Rat).Quo(intRat(as.TotalTokens), decRat(as.TotalValidatorShares)))
+		if v.Cmp(worst) > 0 {
+			worst = v
+		}
+	}
+	t.Add(t, worst)
+	return t
 }
 
 // roundTripRegime quantifies, in delegator shares of validator d.V, how far the module's
